@@ -16,7 +16,7 @@ tie between model and source is re-proved on every run instead of sampled.  A co
 supported subset makes the function untranslatable: it is recorded in `Gen.codeMissing` and no `def`
 is emitted, so the equivalence proofs stop building and the check goes to its failing-input search.
 """
-import copy, ast, os, sys, json, hashlib
+import copy, ast, os, sys, json, hashlib, re
 
 REPO = os.environ.get('DCMSTACK_REPO', '/repo')
 HERE = os.path.dirname(os.path.abspath(__file__))
@@ -1131,6 +1131,9 @@ def KeyDict.valuesAndClass {α : Type} (valid : List Cls) (d : KeyDict α) : Opt
 def KeyDict.set {α : Type} (d : KeyDict α) (c : Cls) (v : List α) : KeyDict α :=
   if d.any (fun p => p.1 == c) then d.map (fun p => if p.1 == c then (c, v) else p) else d ++ [(c, v)]
 
+/-- `key in get_class_dict(c)` -/
+def KeyDict.has {α : Type} (d : KeyDict α) (c : Cls) : Bool := d.any fun p => p.1 == c
+
 /-- `get_class_dict(c)[key]` (KeyError when absent) -/
 def KeyDict.get {α : Type} (d : KeyDict α) (c : Cls) : Except PyErr (List α) :=
   match d.find? fun p => p.1 == c with
@@ -1183,7 +1186,8 @@ def pyIndex {α : Type} (values : List α) (i : Nat) : Except PyErr α :=
 '''
 
 GROUP_OF = {
-    'get_valid_classes': 'classes', 'get_multiplicity': 'classes',
+    'get_valid_classes': 'classes', 'get_multiplicity': 'classes', 'make_empty_bases': 'dicts', 'get_classification': 'dicts',
+    'get_values_and_class': 'dicts',
     'get_const_period': 'simplify', '_get_const_period': 'simplify', 'is_constant': 'simplify', 'is_repeating': 'simplify', 'simplify': 'simplify',
     'meta_valid': 'lookup', 'get_meta_index': 'lookup', 'get_meta': 'lookup',
     'check_valid': 'valid',
@@ -1210,6 +1214,7 @@ GROUP_IMPORTS = {
     'stack': ['DcmVerif.Generated.PyPrelude'],
     'data': ['DcmVerif.Generated.PyPrelude', 'DcmVerif.Model.Wrap'],
     'values': ['DcmVerif.Generated.Code_classes'],
+    'dicts': ['DcmVerif.Generated.Code_classes'],
     'insert': ['DcmVerif.Generated.Code_values'],
     'subset': ['DcmVerif.Generated.Code_values', 'DcmVerif.Generated.Code_simplify'],
     'stackadd': ['DcmVerif.Generated.PyPrelude', 'DcmVerif.Model.StackAdd'],
@@ -1775,6 +1780,74 @@ def translate():
              'values `vals` (body of its loop over the valid classes, the loops over the keys replaced by their bodies): `d` is what '
              'the result holds for the key so far, `r_*` describe the result made by `make_empty`',
              prologue=['let mut d_ := d'])
+    # ---- the dictionaries a new extension gets (make_empty), and where a key is looked up (get_classification & co)
+    f = find_func(dm, 'DcmMetaExtension', 'make_empty')
+    if f is None:
+        missing.append('make_empty_bases: not found')
+    else:
+        body = []
+        ok_ = True
+        for st in f.body:
+            src_ = ast.unparse(st)
+            if isinstance(st, ast.Expr) and isinstance(st.value, ast.Constant):
+                continue
+            if src_.startswith('result = klass('):
+                body.append(ast.parse('content = []').body[0])
+            elif isinstance(st, ast.If):
+                st2 = copy.deepcopy(st)
+                new_body = []
+                for sub in st2.body:
+                    t_ = ast.unparse(sub)
+                    m_ = re.match(r"result\._content\['(\w+)'\] = OrderedDict\(\)$", t_)
+                    if m_:
+                        new_body.append(ast.parse("content.append('%s')" % m_.group(1)).body[0])
+                    elif re.match(r"result\._content\['\w+'\]\['\w+'\] = OrderedDict\(\)$", t_):
+                        continue
+                    else:
+                        ok_ = False
+                st2.body = new_body
+                if st2.orelse:
+                    ok_ = False
+                body.append(st2)
+            else:
+                m_ = re.match(r"result\._content\['(global|time|vector)'\] = OrderedDict\(\)$", src_)
+                if m_:
+                    body.append(ast.parse("content.append('%s')" % m_.group(1)).body[0])
+        if not ok_:
+            missing.append('make_empty_bases: unexpected statement in a conditional of make_empty')
+        else:
+            tr = Tr({}, {})
+            emit('make_empty_bases', '(shape : List Nat) : Except PyErr (List String)', body + [ast.parse('return content').body[0]], tr,
+                 'the base dictionaries `DcmMetaExtension.make_empty` creates (dcmmeta.py): `result._content[b] = OrderedDict()` is '
+                 'recorded as `b` (the sub-dictionaries `const` / `samples` / `slices` always come with their base)')
+    f = find_func(dm, 'DcmMetaExtension', 'get_classification')
+    g = find_func(dm, 'DcmMetaExtension', 'get_values_and_class')
+    if f is None or g is None:
+        missing.append('get_values_and_class: not found')
+    else:
+        class ClsLoop(ast.NodeTransformer):
+            """`for base_class, sub_class in …`: the pair is one classification"""
+            def visit_For(self, node):
+                self.generic_visit(node)
+                if ast.unparse(node.target) in ('(base_class, sub_class)', 'base_class, sub_class'):
+                    node.target = ast.Name(id='cls_', ctx=ast.Store())
+                return node
+
+            def visit_Tuple(self, node):
+                if ast.unparse(node) == '(base_class, sub_class)':
+                    return ast.Name(id='cls_', ctx=ast.Load())
+                return node
+        f2 = ast.fix_missing_locations(ClsLoop().visit(copy.deepcopy(f)))
+        tr = Tr({'key in self._content[base_class][sub_class]': '(KeyDict.has d cls_)'}, {'self.get_valid_classes()': 'get_valid_classes self_shape'})
+        tr.ret_optional = True
+        emit('get_classification', '{α : Type} (self_shape : List Nat) (d : KeyDict α) : Except PyErr (Option Cls)', f2.body, tr,
+             '`DcmMetaExtension.get_classification` (dcmmeta.py) for one key: `d` lists the classes whose dictionary holds the key')
+        tr = Tr({'(None, None)': 'none', '(self.get_class_dict(classification)[key], classification)':
+                 '(some (classification, (← KeyDict.get d classification)))'},
+                {'self.get_classification(key)': 'get_classification self_shape d'})
+        tr.opt_params = {'classification'}
+        emit('get_values_and_class', '{α : Type} (self_shape : List Nat) (d : KeyDict α) : Except PyErr (Option (Cls × List α))', g.body, tr,
+             '`DcmMetaExtension.get_values_and_class` (dcmmeta.py) for one key')
     # ---- check_valid
     f = find_func(dm, 'DcmMetaExtension', 'check_valid')
     if f is None:
